@@ -186,8 +186,8 @@ static void v_load_text(void)
     for (int i = 0; files[i]; i++) { char path[512]; snprintf(path, sizeof path, "%s/%s", root, files[i]); FILE* f = fopen(path, "rb"); if (!f) continue; v_textlen += fread(v_text + v_textlen, 1, cap - v_textlen, f); fclose(f); }
     if (v_textlen < 4096) { for (size_t i = 0; i < 65536; i++) v_text[i] = (uint8_t)("the quick brown fox jumps over the lazy dog "[(i * 7 + i / 13) % 44]); v_textlen = 65536; }
 }
-enum { DF_RANDOM, DF_SMALLALPHA, DF_SKEWED, DF_RUNS, DF_LZ, DF_TEXT, DF_INTS, DF_MIX, DF_ISLANDS, DF_ZERO, DF_LONGREP, DF_REPBAIT, DF_NB };
-static const char* const v_df_name[DF_NB] = { "random", "smallalpha", "skewed", "runs", "lz", "text", "ints", "mix", "islands", "zero", "longrep", "repbait" };
+enum { DF_RANDOM, DF_SMALLALPHA, DF_SKEWED, DF_RUNS, DF_LZ, DF_TEXT, DF_INTS, DF_MIX, DF_ISLANDS, DF_ZERO, DF_LONGREP, DF_REPBAIT, DF_SPARSE, DF_NB };
+static const char* const v_df_name[DF_NB] = { "random", "smallalpha", "skewed", "runs", "lz", "text", "ints", "mix", "islands", "zero", "longrep", "repbait", "sparse" };
 static void gen_data(vrng* r, uint8_t* buf, size_t n, int fam);
 static void gen_lz(vrng* r, uint8_t* buf, size_t n)
 {   /* literals + matches with controlled offset / length distributions */
@@ -236,6 +236,13 @@ static void gen_data(vrng* r, uint8_t* buf, size_t n, int fam)
             int f2 = (int)vr_u(r, DF_NB); if (f2 == DF_MIX) f2 = DF_TEXT; gen_data(r, buf + pos, seg, f2); pos += seg; } break; }
     case DF_ISLANDS: { vr_fill(r, buf, n); size_t k = 1 + vr_u(r, 8); while (k--) { size_t st = vr_u64(r, n); size_t l = 1 + vr_u(r, 3000); if (l > n - st) l = n - st; if (vr_chance(r, 1, 2)) memset(buf + st, 0, l); else if (st > l) memcpy(buf + st, buf + st - l, l); } break; }
     case DF_ZERO: memset(buf, vr_chance(r, 1, 2) ? 0 : (int)vr_u(r, 256), n); break;
+    case DF_SPARSE: {   /* noise with one short match every few hundred bytes (near offsets, often from one offset-code / length-code class): blocks and - with
+                         * targetCBlockSize - sub-blocks that hold a single cheap sequence (tiny sequence sections, tables in RLE / repeat mode) */
+        int const narrow = vr_chance(r, 1, 2);
+        size_t const gapLo = 100 + vr_u(r, 900), gapSpan = 1 + vr_u(r, narrow ? 60 : 900); size_t const offLo = 1 + vr_u(r, 60), offSpan = 1 + vr_u(r, narrow ? 8 : vr_chance(r, 1, 2) ? 20 : 3000); size_t const mlLo = 4 + vr_u(r, 30); size_t const mlSpan = 1 + vr_u(r, narrow ? 4 : 40); size_t pos = 0;
+        while (pos < n) { size_t g = gapLo + vr_u64(r, gapSpan); if (g > n - pos) g = n - pos; vr_fill(r, buf + pos, g); pos += g; if (pos >= n) break;
+            size_t ml = mlLo + vr_u64(r, mlSpan); if (ml > n - pos) ml = n - pos; size_t off = offLo + vr_u64(r, offSpan); if (off > pos) off = pos; for (size_t i = 0; i < ml; i++) buf[pos + i] = buf[pos + i - off]; pos += ml; }
+        break; }
     case DF_REPBAIT: { /* repcode-history bait: periodic data whose period flips among a few values (rep1/rep2/rep3 traffic,
                           matches after 0 / 1 literal), interrupted by incompressible stretches that contain isolated short
                           matches at fresh distances (sub-block / raw-tail decisions with pending sequences) */
